@@ -523,4 +523,147 @@ theorem crtT_eq (t : IntTy) (M : Nat) (hfit : ∀ z : Int, z.natAbs ≤ 2 * M * 
     simp only [if_neg hg0, checked_of_fits _ _ hk, if_neg hk0, checked_of_fits _ _ hsf, checked_of_fits _ _ hpf,
       checked_of_fits _ _ hrf]
 
+
+/-! ### The checked instantiations at any signed type, on the per-input domain `domEgcd` / `domCrt` -/
+
+theorem fits_of_natAbs_le_max (t : IntTy) (hs : t.signed = true) (z : Int) (h : z.natAbs ≤ t.maxVal.toNat) :
+    t.fits z = true := by
+  have hp : (0 : Int) < 2 ^ (t.bits - 1) := Int.pow_pos (by decide)
+  simp only [IntTy.fits, IntTy.minVal, IntTy.maxVal, hs, if_true, Bool.and_eq_true, decide_eq_true_eq] at h ⊢
+  generalize (2 : Int) ^ (t.bits - 1) = P at hp h ⊢
+  omega
+
+theorem absFits_iff (t : IntTy) (hs : t.signed = true) (z : Int) : absFits t z = true ↔ z.natAbs ≤ t.maxVal.toNat := by
+  have hp : (0 : Int) < 2 ^ (t.bits - 1) := Int.pow_pos (by decide)
+  simp only [absFits, IntTy.maxVal, hs, if_true, Bool.and_eq_true, decide_eq_true_eq]
+  generalize (2 : Int) ^ (t.bits - 1) = P at hp ⊢
+  omega
+
+/-- `egcd` at a signed type: operands of magnitude `≤ MAX` and - whenever a solution exists - the coefficient bound
+    `(|c|/g)·max(|a|,|b|) ≤ g·MAX` ⇒ no checked operation overflows. -/
+theorem egcdT_of_bound (t : IntTy) (hs : t.signed = true) (a b c : Int)
+    (ha : a.natAbs ≤ t.maxVal.toNat) (hb : b.natAbs ≤ t.maxVal.toNat) (hab : ¬(a = 0 ∧ b = 0))
+    (hbound : c.natAbs % Int.gcd a b = 0 →
+      (c.natAbs / Int.gcd a b) * max a.natAbs b.natAbs ≤ Int.gcd a b * t.maxVal.toNat) :
+    egcdT t a b c = egcd a b c := by
+  have hG : 0 < Int.gcd a b := Nat.pos_of_ne_zero (by rw [Ne, Int.gcd_eq_zero_iff]; exact hab)
+  apply egcdT_eq t (max a.natAbs b.natAbs)
+    (fun z hz => fits_of_natAbs_le_max t hs z (Nat.le_trans hz (max_le ha hb))) a b c (le_max_left _ _) (le_max_right _ _)
+  intro K hK z hz
+  apply fits_of_natAbs_le_max t hs
+  have hmod : c.natAbs % Int.gcd a b = 0 := by rw [hK]; exact Nat.mul_mod_right _ _
+  have hdiv : c.natAbs / Int.gcd a b = K := by rw [hK]; exact Nat.mul_div_cancel_left _ hG
+  have hb' := hbound hmod
+  rw [hdiv] at hb'
+  exact Nat.le_of_mul_le_mul_left (Nat.le_trans hz hb') hG
+
+theorem egcdT_dom' (t : IntTy) (a b c : Int) (h : domEgcd t a b c = true) : egcdT t a b c = egcd a b c := by
+  simp only [domEgcd, Bool.and_eq_true, Bool.or_eq_true, Bool.not_eq_true', decide_eq_true_eq, decide_eq_false_iff_not,
+    Bool.and_eq_false_imp] at h
+  obtain ⟨⟨⟨⟨⟨hs, ha⟩, hb⟩, _⟩, hab⟩, hbound⟩ := h
+  apply egcdT_of_bound t hs a b c ((absFits_iff t hs a).mp ha) ((absFits_iff t hs b).mp hb)
+  · intro h0; exact absurd h0.2 (hab h0.1)
+  · intro hmod
+    rcases hbound with h1 | h1
+    · exact absurd hmod h1
+    · exact h1
+
+/-- `crt` at a signed type on `domCrt`: no checked operation overflows. -/
+theorem crtT_dom' (t : IntTy) (a1 m1 a2 m2 : Int) (h : domCrt t a1 m1 a2 m2 = true) :
+    crtT t a1 m1 a2 m2 = crt a1 m1 a2 m2 := by
+  simp only [domCrt, Bool.and_eq_true, Bool.or_eq_true, decide_eq_true_eq] at h
+  obtain ⟨⟨⟨⟨⟨⟨⟨⟨⟨hs, hm1⟩, hm2⟩, ha10⟩, ha1⟩, ha20⟩, ha2⟩, hM1⟩, hM2⟩, hcase⟩ := h
+  have hN : (t.maxVal.toNat : Int) = t.maxVal := Int.toNat_of_nonneg (by omega)
+  have hfitN : ∀ z : Int, z.natAbs ≤ t.maxVal.toNat → t.fits z = true := fits_of_natAbs_le_max t hs
+  have hgpos : (0 : Int) < Int.gcd m1 m2 := by
+    have : Int.gcd m1 m2 ≠ 0 := by rw [Ne, Int.gcd_eq_zero_iff]; omega
+    omega
+  have hgneg : Int.gcd m1 (-m2) = Int.gcd m1 m2 := Int.gcd_neg
+  have hE : egcdT t m1 (-m2) (a2 - a1) = egcd m1 (-m2) (a2 - a1) := by
+    apply egcdT_of_bound t hs m1 (-m2) (a2 - a1) (by omega) (by omega) (by omega)
+    intro hmod
+    rw [hgneg] at hmod ⊢
+    rw [Int.natAbs_neg]
+    rcases hcase with h1 | h1
+    · exact absurd hmod (by simpa using h1)
+    · exact h1.1.1
+  have hdiv : 0 < m2.tdiv (gcd m1 m2) ∧ m2.tdiv (gcd m1 m2) ≤ m2 ∧ m2.tdiv (gcd m1 m2) = m2 / (Int.gcd m1 m2 : Int) := by
+    rw [gcd_eq, Int.tdiv_eq_ediv_of_nonneg (by omega)]
+    exact ⟨Int.ediv_pos_of_pos_of_dvd (by omega) (by omega) (Int.gcd_dvd_right m1 m2),
+      Int.ediv_le_self _ (by omega), rfl⟩
+  unfold crtT
+  rw [gcdT_eq t m1 m2 (hfitN _ (by omega)) (hfitN _ (by omega))]
+  simp only [checked_of_fits t (-m2) (hfitN _ (by omega)), checked_of_fits t (a2 - a1) (hfitN _ (by omega)), hE]
+  rcases egcd_complete' m1 (-m2) (a2 - a1) (by omega) with ⟨h, _⟩ | ⟨x, y, h, hd⟩
+  · rw [crt_of_none _ _ _ _ h, h]
+  · have hc := crt_of_some a1 m1 a2 m2 x y h (by rw [gcd_eq]; omega) (by omega)
+    rw [hc, h]
+    rcases crt_main a1 m1 a2 m2 hm1 hm2 ⟨ha10, ha1⟩ ⟨ha20, ha2⟩ with ⟨_, hn⟩ | ⟨_, r, hr, hr0, hrl, _, _⟩
+    · rw [hn] at hc; simp at hc
+    rw [hr] at hc
+    simp only [Except.ok.injEq, Option.some.injEq] at hc
+    -- the congruences are compatible, so the second alternative of the domain applies
+    rw [hgneg] at hd
+    have hmod : (a2 - a1).natAbs % Int.gcd m1 m2 = 0 := Nat.mod_eq_zero_of_dvd (Int.natCast_dvd.mp hd)
+    obtain ⟨⟨_, h2k⟩, hlcm⟩ : (((a2 - a1).natAbs / Int.gcd m1 m2) * max m1.natAbs m2.natAbs ≤ Int.gcd m1 m2 * t.maxVal.toNat ∧
+        2 * (m2 / (Int.gcd m1 m2 : Int)) ≤ t.maxVal) ∧ (Int.lcm m1 m2 : Int) ≤ t.maxVal := by
+      rcases hcase with h1 | h1
+      · exact absurd hmod (by simpa using h1)
+      · exact h1
+    rw [← hdiv.2.2] at h2k
+    rw [← gcd_eq]
+    generalize m2.tdiv (gcd m1 m2) = k at hdiv hc h2k ⊢
+    have hx1 : (x.tmod k).natAbs < k.natAbs := by
+      rw [Int.natAbs_tmod]; exact Nat.mod_lt _ (by omega)
+    have hs0 : 0 ≤ x.tmod k + k := by omega
+    have hx' : 0 ≤ (x.tmod k + k).tmod k := Int.tmod_nonneg _ hs0
+    have hp0 : 0 ≤ m1 * (x.tmod k + k).tmod k := Int.mul_nonneg (by omega) hx'
+    have hk : t.fits k = true := hfitN _ (by omega)
+    have hsf : t.fits (x.tmod k + k) = true := hfitN _ (by omega)
+    have hpf : t.fits (m1 * (x.tmod k + k).tmod k) = true := hfitN _ (by omega)
+    have hrf : t.fits (m1 * (x.tmod k + k).tmod k + a1) = true := hfitN _ (by omega)
+    have hg0 : ¬ gcd m1 m2 = 0 := by rw [gcd_eq]; omega
+    have hk0 : ¬ k = 0 := by omega
+    simp only [if_neg hg0, checked_of_fits _ _ hk, if_neg hk0, checked_of_fits _ _ hsf, checked_of_fits _ _ hpf,
+      checked_of_fits _ _ hrf]
+
+/-- The property's `2^20` box lies inside the `i64` domain (so the driver's definite answers cover it). -/
+theorem box_domEgcd (a b c : Int) (ha : a.natAbs ≤ 2 ^ 20) (hb : b.natAbs ≤ 2 ^ 20) (hc : c.natAbs ≤ 2 ^ 20)
+    (hab : ¬(a = 0 ∧ b = 0)) : domEgcd IntTy.i64 a b c = true := by
+  have hG : 0 < Int.gcd a b := Nat.pos_of_ne_zero (by rw [Ne, Int.gcd_eq_zero_iff]; exact hab)
+  have hmax : (IntTy.i64).maxVal = 2 ^ 63 - 1 := by decide
+  simp only [domEgcd, absFits, hmax, Bool.and_eq_true, Bool.or_eq_true, Bool.not_eq_true', decide_eq_true_eq]
+  refine ⟨⟨⟨⟨⟨rfl, ?_⟩, ?_⟩, ?_⟩, ?_⟩, Or.inr ?_⟩
+  · omega
+  · omega
+  · omega
+  · simp only [Bool.and_eq_false_imp, decide_eq_true_eq, decide_eq_false_iff_not]
+    intro h0 h1; exact hab ⟨h0, h1⟩
+  · have h1 : c.natAbs / Int.gcd a b ≤ 2 ^ 20 := Nat.le_trans (Nat.div_le_self _ _) hc
+    have h2 : max a.natAbs b.natAbs ≤ 2 ^ 20 := max_le ha hb
+    have h3 : (c.natAbs / Int.gcd a b) * max a.natAbs b.natAbs ≤ 2 ^ 20 * 2 ^ 20 := Nat.mul_le_mul h1 h2
+    have h4 : (2 ^ 63 - 1 : Int).toNat ≤ Int.gcd a b * (2 ^ 63 - 1 : Int).toNat := Nat.le_mul_of_pos_left _ hG
+    have h5 : (2 : Nat) ^ 20 * 2 ^ 20 ≤ (2 ^ 63 - 1 : Int).toNat := by decide
+    omega
+
+theorem box_domCrt (a1 m1 a2 m2 : Int) (hm1 : 1 ≤ m1 ∧ m1 ≤ 2 ^ 20) (hm2 : 1 ≤ m2 ∧ m2 ≤ 2 ^ 20)
+    (ha1 : 0 ≤ a1 ∧ a1 < m1) (ha2 : 0 ≤ a2 ∧ a2 < m2) : domCrt IntTy.i64 a1 m1 a2 m2 = true := by
+  have hG : 0 < Int.gcd m1 m2 := Nat.pos_of_ne_zero (by rw [Ne, Int.gcd_eq_zero_iff]; omega)
+  have hmax : (IntTy.i64).maxVal = 2 ^ 63 - 1 := by decide
+  simp only [domCrt, hmax, Bool.and_eq_true, Bool.or_eq_true, decide_eq_true_eq]
+  refine ⟨⟨⟨⟨⟨⟨⟨⟨⟨rfl, hm1.1⟩, hm2.1⟩, ha1.1⟩, ha1.2⟩, ha2.1⟩, ha2.2⟩, by omega⟩, by omega⟩, Or.inr ⟨⟨?_, ?_⟩, ?_⟩⟩
+  · have h1 : (a2 - a1).natAbs / Int.gcd m1 m2 ≤ 2 ^ 20 := Nat.le_trans (Nat.div_le_self _ _) (by omega)
+    have h2 : max m1.natAbs m2.natAbs ≤ 2 ^ 20 := max_le (by omega) (by omega)
+    have h3 := Nat.mul_le_mul h1 h2
+    have h4 : (2 ^ 63 - 1 : Int).toNat ≤ Int.gcd m1 m2 * (2 ^ 63 - 1 : Int).toNat := Nat.le_mul_of_pos_left _ hG
+    have h5 : (2 : Nat) ^ 20 * 2 ^ 20 ≤ (2 ^ 63 - 1 : Int).toNat := by decide
+    omega
+  · have h1 : m2 / (Int.gcd m1 m2 : Int) ≤ m2 := Int.ediv_le_self _ (by omega)
+    omega
+  · rw [lcm_eq_mul_div _ _ (by omega) (by omega)]
+    have h1 : m2 / (Int.gcd m1 m2 : Int) ≤ m2 := Int.ediv_le_self _ (by omega)
+    have h0 : 0 ≤ m2 / (Int.gcd m1 m2 : Int) := Int.ediv_nonneg (by omega) (by omega)
+    have h2 : m1 * (m2 / (Int.gcd m1 m2 : Int)) ≤ 2 ^ 20 * 2 ^ 20 := Int.mul_le_mul hm1.2 (by omega) h0 (by omega)
+    omega
+
 end Rlib.Gcd
